@@ -149,8 +149,19 @@ static std::string op_ztable(std::istringstream&)
     return out;
 }
 
+// walk_eval <fen> | script : after every step of a make / unmake / null-move script on ONE Position object, the static evaluation of that
+// object and of the same position reloaded from its FEN (a fresh evaluator each): the value must not depend on the history of the object
+// (order of the piece lists after swap-remove, cached members)
+static std::string obs_eval_pair(Position& p)
+{
+    PositionScorer a, b;
+    Position q(p.fen());
+    return std::to_string((long long)a.score(p)) + ":" + std::to_string((long long)b.score(q));
+}
+
 static std::string dispatch_eval(const std::string& op, std::istringstream& is)
 {
+    if (op == "walk_eval") return op_walk_gen(is, obs_eval_pair);
     if (op == "eval") return op_eval(is);
     if (op == "evalseq") return op_evalseq(is);
     if (op == "hm") return op_hm(is);
